@@ -64,7 +64,16 @@ def replay_witnesses(prop, findings):
         try:
             r = subprocess.run([sys.executable, '-m', 'rv.worker', prop, 'replay', wp], cwd=VERIF, env=env,
                                stdout=subprocess.PIPE, stderr=subprocess.PIPE, timeout=600)
-            out.append((f, r.returncode == 1))
+            ok = r.returncode == 1
+            # engines that print the replayed violation let us confirm that it is this very mechanism
+            for line in r.stdout.decode('utf-8', 'replace').splitlines():
+                if line.startswith('REPLAYED '):
+                    try:
+                        rec = json.loads(line[9:])
+                        ok = ok and match_finding([f], rec) is not None
+                    except Exception:
+                        pass
+            out.append((f, ok))
         except Exception:
             out.append((f, False))
     return out
